@@ -126,7 +126,7 @@ creadMM(FILE *fp, int *m, int *n, int_t *nonz,
     asub = *rowind;
     xa   = *colptr;
 
-    if ( !(val = (singlecomplex *) SUPERLU_MALLOC(new_nonz * sizeof(double))) )
+    if ( !(val = (singlecomplex *) SUPERLU_MALLOC(new_nonz * sizeof(singlecomplex))) )
         ABORT("Malloc fails for val[]");
     if ( !(row = int32Malloc(new_nonz)) )
         ABORT("Malloc fails for row[]");
